@@ -37,13 +37,41 @@ NORETURN_NAMES = {"abort", "exit", "_Exit", "quick_exit", "std::terminate", "std
 
 def strip_cv(t):
     t = t.strip()
-    for q in ("const ", "volatile "):
-        while t.startswith(q):
-            t = t[len(q):]
-    for q in (" const", " volatile"):
-        while t.endswith(q):
-            t = t[:-len(q)]
-    return t.strip()
+    changed = True
+    while changed:
+        changed = False
+        for q in ("const ", "volatile ", "__restrict ", "restrict "):
+            if t.startswith(q):
+                t = t[len(q):]
+                changed = True
+        for q in (" const", " volatile", " __restrict", " restrict", "*__restrict", "*const", "*restrict"):
+            if t.endswith(q):
+                t = t[:-len(q)] + ("*" if q.startswith("*") else "")
+                changed = True
+        t = t.strip()
+    return t
+
+
+SIZEOF = {"char": 1, "signed char": 1, "unsigned char": 1, "bool": 1, "short": 2, "unsigned short": 2, "int": 4,
+          "unsigned int": 4, "long": 8, "unsigned long": 8, "long long": 8, "unsigned long long": 8, "float": 4,
+          "double": 8, "long double": 16}
+
+
+def pointee_size(t, records=None):
+    """size in bytes of the pointee of pointer type string t, or None"""
+    t = strip_cv(t)
+    if not t.endswith("*"):
+        return None
+    p = strip_cv(t[:-1])
+    if p.endswith("*"):
+        return 8
+    if p in SIZEOF:
+        return SIZEOF[p]
+    if records and p in records:
+        return records[p]["size"]
+    if p.startswith("std::complex<double>") or p == "_Complex double":
+        return 16
+    return None
 
 
 def is_int_type(t):
@@ -286,7 +314,9 @@ class Exec:
                 args = [self.ev(a, out) for a in init.get("args", [])]
                 self.emit_call(init, init.get("callee", "?"), args, out, this=sym.addr(cell))
             else:
-                out.append({"e": "store", "lv": cell, "op": "=", "val": self.ev(init, out), "l": dv["l"]})
+                val = self.ev(init, out)
+                out.append({"e": "store", "lv": cell, "op": "=", "val": val, "l": dv["l"]})
+                self.remember(cell, val)
 
     def do_if(self, node, out):
         if node.get("init"):
@@ -603,7 +633,19 @@ class Exec:
                 return self.ev(e["a"], out)
             if dec is False:
                 return self.ev(e["b"], out)
-            return ("cond", c, self.ev(e["a"], out), self.ev(e["b"], out))
+            ta, tb = [], []
+            va = self.ev(e["a"], ta)
+            vb = self.ev(e["b"], tb)
+            if ta or tb:
+                # branches with effects (e.g. the expansion of assert): keep them conditional
+                ex_a = bool(ta) and ta[-1].get("e") == "exit"
+                ex_b = bool(tb) and tb[-1].get("e") == "exit"
+                out.append({"e": "if", "cond": c, "then": ta, "else": tb, "l": e["l"], "then_exits": ex_a,
+                            "else_exits": ex_b, "then_status": "exit" if ex_a else "fall",
+                            "else_status": "exit" if ex_b else "fall", "condexpr": True})
+            if va is None and vb is None:
+                return None
+            return ("cond", c, va, vb)
         if k in ("call", "mcall", "opcall", "construct"):
             return self.do_call(e, out)
         if k == "new":
@@ -654,6 +696,12 @@ class Exec:
             v = self.ev(a, out)
             if e.get("drops_const"):
                 out.append({"e": "constcast", "val": v, "from": e.get("from"), "to": e.get("t"), "l": e["l"]})
+            if ck == "BitCast":
+                s0 = pointee_size(e.get("from", ""), self.v.records)
+                s1 = pointee_size(e.get("t", ""), self.v.records)
+                if s0 is not None and s1 is not None and s0 != s1 and isinstance(v, tuple) and v[0] not in ("obj", "new", "int"):
+                    # reinterpretation with a different element size: subscripts no longer count the same units
+                    return ("cast", strip_cv(e["t"]), v)
             return v
         if ck in ("IntegralCast", "IntegralToBoolean", "BooleanToSignedIntegral"):
             v = self.ev(a, out)
